@@ -121,7 +121,7 @@ def judge(scn, out):
 class C11(Prop):
     id = "C11"
     level = "exploration"
-    rule = ("10 scenarios (2-3 application threads x 1-3 sends of mutually similar payloads, text/binary/ping, with and without "
+    rule = ("13 scenarios (2-3 application threads x 1-3 sends of mutually similar payloads, text/binary/ping, with and without "
             "permessage-deflate context takeover, optionally the event-loop thread answering Pings or crossing a ping deadline) "
             "run under a deterministic scheduler that serialises real threads at source-line granularity inside lomond plus the "
             "lock acquisition and the middle of every sendall. Schedules: every initial thread order x every single preemption at "
